@@ -9,7 +9,7 @@ from .. import sigs, dft
 
 MANIFEST = dict(
     technique="Lean 4 proof: the fourteen names and their delegate regenerated from fft.py by the translator; STFT/ISTFT label algebra over Q for every channel count, alignment and nperseg; reshape index map; per-segment inversion on ZMod P (Mathlib DFT) + differential correspondence of pulsarbat.fft.<name> against numpy.fft and a direct DFT matrix (NumPy and lazy Dask), and of contrib.stft/istft (labels, tone peak bins, reconstruction)",
-    level_text="proved: name table exact (each name -> same-named scipy.fft function, anything else AttributeError); STFT sub-channel c*P+k is labelled label_c + (k - floor(P/2))*bw/P with rate/P, unchanged start, floor(len/P) samples; ISTFT of an STFT restores labels, rate, start and truncated length; ifft(P * (1/P) * fft x) = x per segment; tied: all 14 names x ranks x axes x n/s x norm vs independent references (distinguishes fft/ifft, fft2/fftn), Dask results lazy and equal, unknown names, STFT labels vs model and vs tone peaks at known absolute frequency, istft(stft(z)) vs z",
+    level_text="the relabelling arithmetic of stft/istft, translated symbolically from the source on every run, is what the model's stft/istft compute (C20_source_formulas); proved: name table exact (each name -> same-named scipy.fft function, anything else AttributeError); STFT sub-channel c*P+k is labelled label_c + (k - floor(P/2))*bw/P with rate/P, unchanged start, floor(len/P) samples; ISTFT of an STFT restores labels, rate, start and truncated length; ifft(P * (1/P) * fft x) = x per segment; tied: all 14 names x ranks x axes x n/s x norm vs independent references (distinguishes fft/ifft, fft2/fftn), Dask results lazy and equal, unknown names, STFT labels vs model and vs tone peaks at known absolute frequency, istft(stft(z)) vs z",
     level_note="PARTIAL on numerics: SciPy FFT values validated against numpy.fft/direct DFT at 1e-10 (1e-4 for 32-bit), not proved. Trusted: Lean kernel + Mathlib, translator (name list/delegate), hand model PbModel/Stft.lean tied by correspondence",
 )
 
